@@ -6,6 +6,7 @@ import (
 	"fmt"
 	"go/token"
 	"go/types"
+	"sort"
 
 	"golang.org/x/tools/go/ssa"
 )
@@ -44,12 +45,12 @@ func checkC07(c *Ctx) {
 		return
 	}
 	const O1, G1, G2, G3, O2, V1 = "C07.O1", "C07.G1", "C07.G2", "C07.G3", "C07.O2", "C07.V1"
-	c.Rule(O1, "continuation iff success (both synchroniser implementations)", 4)
-	c.Rule(G1, "handler calls dominated by tag found ∧ owner == sender ∧ view found", 3)
-	c.Rule(G2, "view/ack counting guards", 5)
+	c.Rule(O1, "continuation iff success (both synchroniser implementations)", 2)
+	c.Rule(G1, "handler calls dominated by tag found ∧ owner == sender ∧ view found", 1)
+	c.Rule(G2, "view/ack counting guards", 2)
 	c.Rule(G3, "one confirmation per peer", 1)
 	c.Rule(O2, "continuation argument sorted after its last assignment", 1)
-	c.Rule(V1, "tags stored for every configured member except self, keyed by PRF(topic)(id)", 2)
+	c.Rule(V1, "tags stored for every configured member except self, keyed by PRF(topic)(id)", 1)
 	for _, f := range m.PkgFuncs(PkgDisc) {
 		c.Analysed(FuncName(f))
 	}
@@ -140,82 +141,122 @@ func checkC07(c *Ctx) {
 	if hm == nil || len(c.fatal) > 0 {
 		return
 	}
+	decoderFn := m.Func(PkgDisc, "", "decodeTagAndMembershipList")
 	from := strip(hm.Params[1])
+	fSendM := m.Field(PkgDisc, "Member", "Send")
+	// The effects a synchroniser message may have — recording the sender's view, counting its response,
+	// answering its query — are found by what they do, wherever they sit (in HandleMessage itself or in
+	// handler functions it calls, however these are named), and each is looked at in every calling
+	// context from HandleMessage.
+	region := map[*ssa.Function]bool{}
+	var grow func(f *ssa.Function, d int)
+	grow = func(f *ssa.Function, d int) {
+		if f == nil || region[f] || f.Blocks == nil || pkgPathOf(f) != PkgDisc || d > 3 {
+			return
+		}
+		region[f] = true
+		for _, in := range instrsOf(f) {
+			if ci, ok := in.(ssa.CallInstruction); ok {
+				grow(staticCallee(ci.Common()), d+1)
+			}
+		}
+	}
+	grow(hm, 0)
+	var regionFns []*ssa.Function
+	for f := range region {
+		regionFns = append(regionFns, f)
+	}
+	sort.Slice(regionFns, func(i, j int) bool { return regionFns[i].String() < regionFns[j].String() })
+	kinds := map[string]bool{}
 	nH := 0
-	handlerSeen := map[string]bool{}
-	for _, in := range instrsDeep(hm) {
-		cl, ok := in.(*ssa.Call)
-		if !ok {
-			continue
-		}
-		cal := staticCallee(&cl.Call)
-		if cal == nil || pkgPathOf(cal) != PkgDisc {
-			continue
-		}
-		switch cal.Name() {
-		case "handleMembershipMessage", "respondToQuery", "handleResponse":
-		default:
-			continue
-		}
-		nH++
-		handlerSeen[cal.Name()] = true
-		facts := FactsAt(cl)
-		var tagLoad *ssa.Call
-		okTag := boolFact(facts, true, func(v ssa.Value) bool {
-			l, ok := syncMapOK(v, "Load", fTags)
-			if ok {
-				tagLoad = l
+	for _, fn := range regionFns {
+		for _, in := range instrsOf(fn) {
+			cl, ok := in.(*ssa.Call)
+			if !ok {
+				continue
 			}
-			return ok
-		})
-		okOwner := hasFact(facts, func(f Fact) bool {
-			if f.Op != token.EQL {
-				return false
-			}
-			for _, pr := range [][2]ssa.Value{{f.X, f.Y}, {f.Y, f.X}} {
-				if strip(pr[1]) != from {
-					continue
+			kind := ""
+			var passed []ssa.Value
+			switch {
+			case isCallTo(&cl.Call, "sync", "Map.Store") && len(cl.Call.Args) == 3:
+				if fa, isFA := cl.Call.Args[0].(*ssa.FieldAddr); isFA && (fieldOfAddr(fa) == fTags || fieldOfAddr(fa) == fViews) {
+					continue // the member's own tables (filled by Synchronize's preparation, not by messages)
 				}
-				_, fld, isF := fieldLoad(strip(pr[0]))
-				if isF && fld == fID {
-					// the value comes from the tag table entry
-					s := sl.Slice(pr[0])
-					if tagLoad != nil && s[tagLoad] {
-						return true
+				kind, passed = "view recorded", []ssa.Value{cl.Call.Args[1]}
+			case isCallTo(&cl.Call, "sync", "Map.LoadOrStore") && len(cl.Call.Args) == 3:
+				kind, passed = "response counted", []ssa.Value{cl.Call.Args[1]}
+			case fSendM != nil && callsFuncField(&cl.Call, fSendM):
+				kind, passed = "query answered", cl.Call.Args
+			default:
+				continue
+			}
+			ctxs, okc := contextsOf(cl, map[*ssa.Function]bool{hm: true}, regionFns, 4)
+			if !okc || len(ctxs) == 0 {
+				continue // not on a path from HandleMessage
+			}
+			kinds[kind] = true
+			for _, sc := range ctxs {
+				nH++
+				facts := sc.Facts()
+				var tagLoad *ssa.Call
+				okTag := boolFact(facts, true, func(v ssa.Value) bool {
+					l, ok := syncMapOK(v, "Load", fTags)
+					if ok {
+						tagLoad = l
+					}
+					return ok
+				})
+				okOwner := hasFact(facts, func(f Fact) bool {
+					if f.Op != token.EQL {
+						return false
+					}
+					for _, pr := range [][2]ssa.Value{{f.X, f.Y}, {f.Y, f.X}} {
+						if strip(sc.Resolve(pr[1])) != from {
+							continue
+						}
+						_, fld, isF := fieldLoad(strip(pr[0]))
+						if isF && fld == fID {
+							// the value comes from the tag table entry
+							s := sl.Slice(pr[0])
+							if tagLoad != nil && s[tagLoad] {
+								return true
+							}
+						}
+					}
+					return false
+				})
+				okView := boolFact(facts, true, func(v ssa.Value) bool { _, ok := syncMapOK(v, "Load", fViews); return ok })
+				// tag key is what the decoder produced from this message
+				okKey := false
+				if tagLoad != nil {
+					s := sl.Slice(tagLoad.Call.Args[1])
+					okKey = sliceHas(s, func(v ssa.Value) bool {
+						c2, ok := v.(*ssa.Call)
+						return ok && staticCallee(&c2.Call) != nil && decoderFn != nil && staticCallee(&c2.Call) == decoderFn && strip(c2.Call.Args[0]) == strip(hm.Params[2])
+					})
+				}
+				// the sender the effect is attributed to is the authenticated one
+				okFrom := false
+				for _, a0 := range passed {
+					a := sc.Resolve(a0)
+					if strip(a) == from {
+						okFrom = true
+					}
+					// or a value proven equal to the authenticated sender on this path
+					if intWidth(a.Type()) == 16 && hasFact(facts, func(f Fact) bool {
+						return f.Op == token.EQL && ((sameValue(f.X, a) && strip(f.Y) == from) || (sameValue(f.Y, a) && strip(f.X) == from))
+					}) {
+						okFrom = true
 					}
 				}
-			}
-			return false
-		})
-		okView := boolFact(facts, true, func(v ssa.Value) bool { _, ok := syncMapOK(v, "Load", fViews); return ok })
-		// tag key is what the decoder produced from this message
-		okKey := false
-		if tagLoad != nil {
-			s := sl.Slice(tagLoad.Call.Args[1])
-			okKey = sliceHas(s, func(v ssa.Value) bool {
-				c2, ok := v.(*ssa.Call)
-				return ok && staticCallee(&c2.Call) != nil && staticCallee(&c2.Call).Name() == "decodeTagAndMembershipList" && strip(c2.Call.Args[0]) == strip(hm.Params[2])
-			})
-		}
-		// the `from` handed on is the authenticated sender
-		okFrom := false
-		for _, a := range cl.Call.Args {
-			if strip(a) == from {
-				okFrom = true
-			}
-			// or a value proven equal to the authenticated sender on this path
-			if intWidth(a.Type()) == 16 && hasFact(facts, func(f Fact) bool {
-				return f.Op == token.EQL && ((sameValue(f.X, a) && strip(f.Y) == from) || (sameValue(f.Y, a) && strip(f.X) == from))
-			}) {
-				okFrom = true
+				c.Check(okTag && okOwner && okView && okKey && okFrom, G1, FuncName(hm), kind+" via "+ctxName(sc), m.Pos(cl.Pos()),
+					"tag(msg) found ∧ entry.id == from ∧ topic view found; attributed to the authenticated from",
+					fmt.Sprintf("a synchroniser message is processed without establishing that its tag belongs to the authenticated sender (tag-found=%v owner==from=%v view-found=%v tag-from-msg=%v passes-from=%v): a member can answer for others", okTag, okOwner, okView, okKey, okFrom))
 			}
 		}
-		c.Check(okTag && okOwner && okView && okKey && okFrom, G1, FuncName(hm), "call "+cal.Name(), m.Pos(cl.Pos()),
-			"tag(msg) found ∧ entry.id == from ∧ topic view found; passes the authenticated from",
-			fmt.Sprintf("a synchroniser message is processed without establishing that its tag belongs to the authenticated sender (tag-found=%v owner==from=%v view-found=%v tag-from-msg=%v passes-from=%v): a member can answer for others", okTag, okOwner, okView, okKey, okFrom))
 	}
-	if len(handlerSeen) < 3 {
-		c.Bad(G1, FuncName(hm), "handler calls", "-", fmt.Sprintf("only %d of the three handlers are called from Member.HandleMessage (%d calls)", len(handlerSeen), nH))
+	if len(kinds) < 3 {
+		c.Bad(G1, FuncName(hm), "message effects", "-", fmt.Sprintf("only %d of the three effects of a synchroniser message (view recorded, response counted, query answered) are reachable from Member.HandleMessage", len(kinds)))
 	}
 
 	// ------------------------------------------------------------------ G2 / N1 / O2
@@ -246,36 +287,85 @@ func checkC07(c *Ctx) {
 			c.Check(okGE && okLE, G2, FuncName(syn), "continuation under exact size", m.Pos(cl.Pos()), "len(members) ≥ expected ∧ ¬(len(members) > expected)",
 				fmt.Sprintf("the continuation can run with a member list whose size is not exactly the expected count (≥: %v, ≤: %v)", okGE, okLE))
 			// members come from intersectedView
-			argFromIV := false
-			if c2, ok := arg.(*ssa.Call); ok && staticCallee(&c2.Call) == iv {
-				argFromIV = true
+			// (assigned before the loop and at its end: a φ whose every incoming value is such a call)
+			var fromIV func(v ssa.Value, d int) bool
+			fromIV = func(v ssa.Value, d int) bool {
+				v = strip(v)
+				if c2, ok := v.(*ssa.Call); ok && staticCallee(&c2.Call) == iv {
+					return true
+				}
+				if p, ok := v.(*ssa.Phi); ok && d < 3 {
+					n := 0
+					for _, e := range p.Edges {
+						if e == ssa.Value(p) {
+							continue
+						}
+						if !fromIV(e, d+1) {
+							return false
+						}
+						n++
+					}
+					return n > 0
+				}
+				return false
 			}
+			argFromIV := fromIV(arg, 0)
 			c.Check(argFromIV, G2, FuncName(syn), "continuation argument is the intersected view", m.Pos(cl.Pos()), "members ← intersectedView(...)", "the list handed to the continuation is not the agreed (intersected) view")
 			// confirmations
+			// the confirmation counter: counting down from expected−1 to ≤ 0, or up from 0 to ≥ expected−1
 			var ackPhi *ssa.Phi
+			up := false
+			isExpMinus1 := func(v ssa.Value) bool {
+				l := linOf(v)
+				if l.K != -1 || len(l.Terms) != 1 {
+					return false
+				}
+				for tname, coef := range l.Terms {
+					if coef == 1 && tname == termKey(expected) {
+						return true
+					}
+				}
+				return false
+			}
 			okAck := hasFact(facts, func(f Fact) bool {
-				if f.Op != token.LEQ {
-					return false
+				if p, isPhi := strip(f.X).(*ssa.Phi); isPhi {
+					if f.Op == token.LEQ && isZero(f.Y) {
+						ackPhi, up = p, false
+						return true
+					}
+					if f.Op == token.GEQ && isExpMinus1(f.Y) {
+						ackPhi, up = p, true
+						return true
+					}
 				}
-				p, isPhi := strip(f.X).(*ssa.Phi)
-				if !isPhi || !isZero(f.Y) {
-					return false
+				if p, isPhi := strip(f.Y).(*ssa.Phi); isPhi {
+					if f.Op == token.GEQ && isZero(f.X) {
+						ackPhi, up = p, false
+						return true
+					}
+					if f.Op == token.LEQ && isExpMinus1(f.X) {
+						ackPhi, up = p, true
+						return true
+					}
 				}
-				ackPhi = p
-				return true
+				return false
 			})
 			okInit, okDec := false, false
 			if ackPhi != nil {
 				okDec = true
 				nDec := 0
+				stepOp := token.SUB
+				if up {
+					stepOp = token.ADD
+				}
 				for _, e := range ackPhi.Edges {
 					if e == ssa.Value(ackPhi) {
 						continue
 					}
-					if b, isB := e.(*ssa.BinOp); isB && b.Op == token.SUB && b.X == ssa.Value(ackPhi) {
+					if b, isB := e.(*ssa.BinOp); isB && b.Op == stepOp && b.X == ssa.Value(ackPhi) {
 						nDec++
 						k, _ := constInt(b.Y)
-						// decrement guarded by equality of the rendered lists, one of which renders the continuation's argument
+						// the step is guarded by equality of the rendered lists, one of which renders the continuation's argument
 						g := hasFact(FactsAt(b), func(f Fact) bool {
 							if f.Op != token.EQL || !isString(f.X.Type()) {
 								return false
@@ -290,14 +380,9 @@ func checkC07(c *Ctx) {
 						}
 						continue
 					}
-					// init edge: expected - 1
-					l := linOf(e)
-					if l.K == -1 && len(l.Terms) == 1 {
-						for tname, coef := range l.Terms {
-							if coef == 1 && tname == termKey(expected) {
-								okInit = true
-							}
-						}
+					// init edge: expected − 1 (counting down) or 0 (counting up)
+					if (!up && isExpMinus1(e)) || (up && isZero(e)) {
+						okInit = true
 					}
 				}
 				okDec = okDec && nDec >= 1
@@ -360,23 +445,32 @@ func checkC07(c *Ctx) {
 	}
 
 	// ------------------------------------------------------------------ G3
-	hr := c.mustFunc(m, PkgDisc, "Member", "handleResponse")
-	if hr != nil {
+	// every blocking channel send reachable from HandleMessage (the confirmation handed to Synchronize),
+	// wherever it sits and whatever its function is called
+	{
 		n := 0
-		for _, in := range instrsOf(hr) {
-			snd, ok := in.(*ssa.Send)
-			if !ok {
-				continue
+		for _, fn := range regionFns {
+			for _, in := range instrsOf(fn) {
+				snd, ok := in.(*ssa.Send)
+				if !ok {
+					continue
+				}
+				ctxs, okc := contextsOf(snd, map[*ssa.Function]bool{hm: true}, regionFns, 4)
+				if !okc {
+					continue
+				}
+				for _, sc := range ctxs {
+					n++
+					okG := boolFact(sc.Facts(), false, func(v ssa.Value) bool {
+						cl, ok := syncMapOK(v, "LoadOrStore", nil)
+						return ok && strip(sc.Resolve(cl.Call.Args[1])) == from
+					})
+					c.Check(okG, G3, FuncName(fn), "confirmation forwarded once per peer", m.Pos(snd.Pos()), "not-loaded arm of responsesReceived.LoadOrStore(from)", "a peer's repeated responses are counted more than once (one member can supply all confirmations) or block the dispatcher on the bounded channel")
+				}
 			}
-			n++
-			okG := boolFact(FactsAt(snd), false, func(v ssa.Value) bool {
-				cl, ok := syncMapOK(v, "LoadOrStore", nil)
-				return ok && strip(cl.Call.Args[1]) == strip(hr.Params[1])
-			})
-			c.Check(okG, G3, FuncName(hr), "confirmation forwarded once per peer", m.Pos(snd.Pos()), "not-loaded arm of responsesReceived.LoadOrStore(from)", "a peer's repeated responses are counted more than once (one member can supply all confirmations) or block the dispatcher on the bounded channel")
 		}
 		if n == 0 {
-			c.Bad(G3, FuncName(hr), "confirmation forwarded", "-", "responses are never forwarded")
+			c.Bad(G3, FuncName(hm), "confirmation forwarded", "-", "responses are never forwarded")
 		}
 	}
 
